@@ -36,7 +36,43 @@ def add_evaluated(run, ded, items, func):
     return ded
 
 
-def run_deductive(run, keys, budget=None, only=None):
+def run_companion(run, keys, functions):
+    """BOUNDED runtime companion (never counted as proved): the same contract clauses evaluated by CPython on the real functions over the
+    enumerated corpora of vf/contracts/corpora.py; each record is also an engine / CPython cross-check (disagreement = checker fault)"""
+    from vf.bounded import contract_rt
+    from vf.contracts.corpora import CORPORA
+
+    total = {"cases": 0, "failures": 0, "engine_mismatches": 0, "crosschecked": 0}
+    for key in keys:
+        if key not in CORPORA:
+            continue
+        corpus = CORPORA[key](run.tier, run.seed)
+        n = fails = cross = 0
+        for rec in contract_rt.run_corpus(key, corpus):
+            if rec["case"] is None:
+                continue
+            n += 1
+            if rec["mismatch"]:
+                total["engine_mismatches"] += 1
+                run.fault("engine/CPython disagreement on %s %r: %s" % (key, rec["kwargs"], rec["mismatch"]))
+                continue
+            if not rec.get("ghostless"):
+                cross += 1
+            for f in rec["failed"]:
+                fails += 1
+                run.failure("%s/%s" % (key, f["clause"]), "contract clause %s fails on the real code: %s for %r -> %s" % (
+                    f["clause"], f["text"], rec["kwargs"], rec.get("value")),
+                    {"kind": "contract", "func": key, "clause": f["text"], "input": {k: repr(v) for k, v in rec["kwargs"].items()},
+                     "observed": rec.get("value")})
+        if key in functions:
+            functions[key]["bounded_companion"] = {"corpus": len(corpus), "in_contract_domain": n, "clause_failures": fails, "engine_cpython_crosschecked": cross}
+        total["cases"] += n
+        total["failures"] += fails
+        total["crosschecked"] += cross
+    return total
+
+
+def run_deductive(run, keys, budget=None, only=None, companion=True):
     """returns dict for the evidence file; reports failures on `run`"""
     budget = budget or (10 if run.tier == "quick" else 40)
     t0 = time.time()
@@ -54,6 +90,7 @@ def run_deductive(run, keys, budget=None, only=None):
     samples = []
     all_keys_discharged = set()
     per_key_status = {}
+    aborted = set()
     for r in reps:
         func = r["func"]
         if r.get("error"):
@@ -105,9 +142,12 @@ def run_deductive(run, keys, budget=None, only=None):
                 else:
                     undecided.append({"id": o["id"], "reason": "counter-model in the encoding not confirmed on the real code", "clause": o["note"][:160]})
             else:
+                if o["kind"] == "abort":
+                    aborted.add(func)
                 undecided.append({"id": o["id"], "reason": (o.get("reason") or "")[:200], "clause": o["note"][:160]})
     for func, cf in canary_funcs.items():
-        if cf["total"] and cf["non_discharged"] == 0:
+        if cf["total"] and cf["non_discharged"] == 0 and func not in aborted:
+            # (paths that left the verified subset discharge their canaries vacuously: those are reported as undecided, not as a fault)
             run.fault("all canaries of %s were discharged: the contract may be vacuous" % func)
     if obligations == 0:
         run.fault("zero obligations generated for %s" % (keys,))
@@ -116,7 +156,9 @@ def run_deductive(run, keys, budget=None, only=None):
     relevant_expected = {k for k in expected if k.split("::")[0] in keys}
     missing = sorted(relevant_expected - now_keys)
     discharged_keys = sorted(k for k, sts in per_key_status.items() if all(s == "discharged" for s in sts))
+    comp = run_companion(run, keys, functions) if companion else None
     return {
+        "runtime_companion": comp,
         "obligations": obligations,
         "discharged": discharged,
         "by_backend": dict(by_backend),
